@@ -243,6 +243,7 @@ type LifeRun struct {
 	World    *sim.World
 	Env      *sim.Env
 	YieldCount map[string]int
+	Settled    bool // every instance goroutine finished before the final snapshot
 }
 
 func parseWhen(s string) (kind, a string, n int) {
@@ -330,10 +331,15 @@ func RunLife(seed int64, spec *LifeSpec, post func(lr *LifeRun)) *LifeRun {
 	case <-opsDone:
 	case <-time.After(max):
 	}
-	if spec.EndWithShutdown && !env.RunReturned() {
+	if spec.EndWithShutdown {
+		// also when Run() already returned: API-started instances may be alive
 		_ = env.Call("shutdown", "", 0, func() error { return env.Runner.ShutDownProject() })
 	}
 	lr.Outcome = env.WaitRun(silence, max)
+	if lr.Outcome == sim.RunReturned {
+		// let API-started instances that outlive Run() settle (bounded)
+		lr.Settled = w.WaitFor(3*time.Second, func(v *sim.WorldView) bool { return v.AliveTotal() == 0 && v.AllInstancesFinished() })
+	}
 	if lr.Outcome != sim.RunReturned {
 		lr.Dump = sim.GoroutineDump()
 	} else {
@@ -566,6 +572,7 @@ type launchRec struct {
 
 type procLog struct {
 	Name      string
+	InstSeq   map[int]int // instance id -> seq of its instance event
 	Instances []int // seq of instance events
 	Launches  []*launchRec
 	States    []sim.Event
@@ -584,7 +591,7 @@ func indexLife(evs []sim.Event) *lifeIndex {
 	get := func(n string) *procLog {
 		p := ix.procs[n]
 		if p == nil {
-			p = &procLog{Name: n}
+			p = &procLog{Name: n, InstSeq: map[int]int{}}
 			ix.procs[n] = p
 			ix.names = append(ix.names, n)
 		}
@@ -596,6 +603,7 @@ func indexLife(evs []sim.Event) *lifeIndex {
 		case sim.EvInstance:
 			p := get(e.Proc)
 			p.Instances = append(p.Instances, e.Seq)
+			p.InstSeq[e.Inst] = e.Seq
 		case sim.EvLaunch:
 			p := get(e.Proc)
 			p.Launches = append(p.Launches, &launchRec{Seq: e.Seq, Inst: e.Inst, Att: e.Att, ExitSeq: -1, FirstSignalSeq: -1})
